@@ -38,7 +38,7 @@ ASSUMPTIONS = ["generated string values are non-empty printable ASCII without qu
                "DIRECTIO restricted to 0/1 as in the statement (blimpy pads only for exactly 1)",
                "a torn file left by an injected fault is not judged; the retried recording is",
                "for recordings made onto existing RAW the provenance cards TELESCOP/OBSERVER/SRC_NAME are not judged (re-written by design) and inherited numeric cards may be quoted strings"]
-PROBES = ["header_cards_mod32==0", "directio_pad_0_bytes", "directio_off_unaligned", "multi_file_last_partial",
+PROBES = ["recorded_over_previous_recording", "header_cards_mod32==0", "directio_pad_0_bytes", "directio_off_unaligned", "multi_file_last_partial",
           "listing_last_is_not_highest", "override_attempted", "default_header_argument", "template_loaded",
           "record_after_aborted_record", "array_source", "reducer_compared", "single_antenna_user_nants",
           "blimpy_full_walk", "end_prefixed_key", "recording_onto_existing_raw", "retry_over_leftover_files"]
@@ -124,6 +124,8 @@ def generate(rng, tier):
                                       {"kind": "eio", "at": rng.randint(1, 60)},
                                       {"kind": "open", "at": rng.randint(1, 2)},
                                       {"kind": "interrupt", "at": rng.randint(1, 300)}])
+        if ops and rng.random() < 0.35:
+            op["same_stem"] = True
         ops.append(op)
         if not op.get("fault") and rng.random() < 0.25:
             # a recording made *onto* the one just written (from_data): its files are recordings too
@@ -507,6 +509,7 @@ def execute(sc, ctx):
     aborted = False
     hist = []
     last_ok = None
+    last_stem = None
     for j, op in enumerate(sc["ops"]):
         ctx.op(op["op"] + ("+fault" if op.get("fault") else ""))
         if op["op"] == "rebuild":
@@ -559,6 +562,10 @@ def execute(sc, ctx):
                 return
             continue
         stem = ctx.seams.path("r%d" % j)
+        if op.get("same_stem") and last_stem is not None:
+            # recorded over the files of the previous recording (which the library's readers have already looked at)
+            stem = last_stem
+            ctx.hit("recorded_over_previous_recording")
         hspec = op["header"]
         used_default = hspec["kind"] == "default"
         if used_default:
@@ -594,6 +601,13 @@ def execute(sc, ctx):
             return
         if not used_default:
             prev_dict, prev_user = header, user_cards
+        if op.get("same_stem"):
+            # files of the earlier, longer recording that this one did not write are not part of it
+            nfiles = -(-op["num_blocks"] // backend.blocks_per_file)
+            for k, pth in enumerate(W.list_files(stem)):
+                if k >= nfiles:
+                    os.remove(pth)
+        last_stem = stem
         ctx.event("record", j)
         # a reused caller dictionary legitimately carries whatever the caller left in it; C12 judges
         # history effects.  Here only what the statement says about one recording is judged.
